@@ -193,9 +193,14 @@ def g2_jobs(ctx, spec, cfg, cap=3, m=2, nops=1, timeout=600, mem_mb=8000, tagx='
 
 
 def e3w_jobs(ctx, spec, cfg, bs, m, maxnul=1, witness=True, timeout=900, mem_mb=12000, tagx='',
-             extra_options=(), interactive_check=False):
+             extra_options=(), interactive_check=False, more=False):
     """Inductive refill step jobs (white box)."""
-    wd, g = _prep(ctx, spec, cfg, 'e3w' + tagx, extra_options=ALLOC_OPTS + list(extra_options))
+    genkw = {}
+    if more:
+        tagx += 'more'
+        genkw = dict(action=lambda r: '{ if (vp_more_req) yymore(); return %d; }' % H.spec_action_id(spec, r),
+                     prologue='extern int vp_more_req;')
+    wd, g = _prep(ctx, spec, cfg, 'e3w' + tagx, extra_options=ALLOC_OPTS + list(extra_options), **genkw)
     jobs = []
     if not g.ok:
         return jobs, g
@@ -207,14 +212,14 @@ def e3w_jobs(ctx, spec, cfg, bs, m, maxnul=1, witness=True, timeout=900, mem_mb=
     for w in ([False, True] if witness else [False]):
         src = os.path.join(wd, 'e3w_b%d_m%d%s.c' % (bs, m, '_w' if w else ''))
         with open(src, 'w') as fh:
-            fh.write(H.e3w_harness(g, cfg, spec, bs, m, maxnul=maxnul, witness=w, interactive_check=interactive_check))
+            fh.write(H.e3w_harness(g, cfg, spec, bs, m, maxnul=maxnul, witness=w, interactive_check=interactive_check, more=more))
         b = scanner_bounds(g, n, maxnul, refills=m)
         b.update({'move': n + 2, 'grow': 4, 'goto_match': maxnul + m + 1, 'match': n + 3, 'prevstate': n + 2})
-        j = cbmc.Job('e3w_%s_%s_b%d_m%d%s' % (spec.name, cfg.name, bs, m, '_w' if w else ''), wd, [src], b,
+        j = cbmc.Job('e3w%s_%s_%s_b%d_m%d%s' % ('more' if more else '', spec.name, cfg.name, bs, m, '_w' if w else ''), wd, [src], b,
                      includes=[wd, H.HDIR], harness_bound=None, timeout=timeout, mem_mb=mem_mb, gen_file=g.cpath,
                      expect='witness' if w else 'proved',
                      meta=dict(engine='E3', entry=spec.name, config=cfg.name,
-                               bound='buffer capacity %d with any fill/position/status, %d further source bytes, any read sizes, one yylex step' % (bs, m),
+                               bound='buffer capacity %d with any fill/position/status, %d further source bytes, any read sizes, one yylex step%s' % (bs, m, ' after yymore() with any previous token still in the buffer' if more else ''),
                                flex_input=g.ltext, flex_args=g.args))
         jobs.append(j)
     ctx.functions.update(['yylex', 'yy_get_next_buffer', 'yy_get_previous_state', 'yy_try_NUL_trans', 'yyrestart',
@@ -288,26 +293,30 @@ def api_jobs(ctx, spec, cfg, lengths, alloc_fail=False, second_lex=False, checks
     return jobs, g
 
 
-def wrap_jobs(ctx, spec, cfg, lengths, timeout=400, mem_mb=10000, witness_len=None):
+def wrap_jobs(ctx, spec, cfg, lengths, timeout=400, mem_mb=10000, witness_len=None, mores=(0, 1, 2)):
     """yywrap() continuation jobs (scanner generated WITHOUT noyywrap)."""
     wd, g = _prep(ctx, spec, cfg, 'wrap', extra_options=[o for o in ALLOC_OPTS if o != 'noyywrap'])
     jobs = []
     if not g.ok:
         return jobs, g
     for n in lengths:
-        for w in ([False, True] if witness_len == n else [False]):
-            src = os.path.join(wd, 'wrap_n%d%s.c' % (n, '_w' if w else ''))
-            with open(src, 'w') as fh:
-                fh.write(H.wrap_harness(g, cfg, spec, n, witness=w))
-            b = scanner_bounds(g, n, 1)
-            b['outer'] = 3
-            j = cbmc.Job('wrap_%s_%s_n%d%s' % (spec.name, cfg.name, n, '_w' if w else ''), wd, [src], b,
-                         includes=[wd, H.HDIR], harness_bound=None, timeout=timeout, mem_mb=mem_mb, gen_file=g.cpath,
-                         expect='witness' if w else 'proved',
-                         meta=dict(engine='E4', entry=spec.name, config=cfg.name,
-                                   bound='empty first source, yywrap stops or supplies a second source of %d bytes' % n,
-                                   flex_input=g.ltext, flex_args=g.args))
-            jobs.append(j)
+        for more in mores:
+            if n == 0 and more == 1:
+                continue
+            for w in ([False, True] if (witness_len == n and more) else [False]):
+                src = os.path.join(wd, 'wrap_n%d_m%d%s.c' % (n, more, '_w' if w else ''))
+                with open(src, 'w') as fh:
+                    fh.write(H.wrap_harness(g, cfg, spec, n, witness=w, more=more))
+                b = scanner_bounds(g, n, 1)
+                b['outer'] = 3
+                j = cbmc.Job('wrap_%s_%s_n%d_m%d%s' % (spec.name, cfg.name, n, more, '_w' if w else ''), wd, [src], b,
+                             includes=[wd, H.HDIR], harness_bound=None, timeout=timeout, mem_mb=mem_mb, gen_file=g.cpath,
+                             expect='witness' if w else 'proved',
+                             meta=dict(engine='E4', entry=spec.name, config=cfg.name,
+                                       bound='empty first source; yywrap %s (%d bytes)' % (('reports no further input', 'supplies a second source', 'pops back to the buffer pushed before')[more], n),
+                                       flex_input=g.ltext, flex_args=g.args))
+                jobs.append(j)
+    ctx.functions.update(['yylex', 'yywrap (user)', 'yypop_buffer_state', 'yypush_buffer_state', 'yy_scan_buffer'])
     return jobs, g
 
 
